@@ -74,4 +74,5 @@ func checkC11(rep *Report, rng *Rng, tier string) {
 		d := CfgDesc{Check: "C11", FileBacked: g.FileBacked, CmpCB: cmpCB, DumpEvery: true}
 		return d.RunCfg(), ops, d.String()
 	}, nil)
+	rep.Extra["destination_files_compared_with_model"] = copyRunCompared
 }
